@@ -168,7 +168,7 @@ def run_case(ctx, case, confirm=False):
 def case_st(quick):
     return st.fixed_dictionaries({
         "model": projgen.model_st(2, 6 if quick else 7, richness=1),
-        "edits": st.lists(projgen.edit_st, min_size=1, max_size=4 if quick else 7),
+        "edits": st.lists(projgen.build_edit_st, min_size=1, max_size=4 if quick else 7),
         "mode": st.sampled_from(["dev", "dev", "build"]),
         "jobs": st.sampled_from([None, None, 2, 4]),
         "toolchains": st.sampled_from([None, None, None, 0, 1, 2, 3, 4, 5]),
